@@ -488,7 +488,7 @@ def proofs_step(chk, pid, extra_targets=()):
         lk = _lake_lock()
         try:
             p = subprocess.run(
-                ["lake", "env", "leanchecker", "BS.Properties." + pid],
+                ["lake", "env", "leanchecker", "BS.Properties." + pid] + [x for x in extra_targets if x.startswith("BS.Properties.")],
                 cwd=LEAN_DIR, capture_output=True, text=True, timeout=3000,
             )
         finally:
